@@ -474,3 +474,80 @@ Proof.
       unfold not_component. fold (folders_of ad sf). cbn [negb]. rewrite andb_true_r.
       destruct Hcls as [C|C]; rewrite C; [reflexivity|]. rewrite !orb_true_r. reflexivity.
 Qed.
+
+(* ... and expand_component_references leaves it untouched (when no known component carries the same
+   name as the folder; known component names hold no '/') *)
+Lemma expand_direct_core r si prod file meth ctx known tlf :
+  parse_full r None [] [] = Some (si, prod, file, meth) ->
+  known_noslash known ->
+  (is_var_reference prod = true \/ hasc "/" prod = true \/
+   (si = None /\ in_strs prod tlf = true /\ known_in known ctx prod = false)) ->
+  expand_potential r ctx known (Some tlf) false = Some r.
+Proof.
+  intros E K H. unfold expand_potential. rewrite E.
+  destruct (is_var_reference prod) eqn:V; [reflexivity|].
+  destruct H as [H|[H|(-> & H1 & H2)]]; [discriminate| |].
+  - rewrite H, orb_true_r.
+    destruct (known_in known match si with Some n => n | None => ctx end prod) eqn:KI.
+    + apply K in KI. congruence.
+    + destruct tlf; reflexivity.
+  - rewrite H1, H2. cbn [orb negb]. destruct tlf; reflexivity.
+Qed.
+
+Theorem classify_direct_expand r a meth ctx known ad tlf :
+  split_colon r = Some (a, meth) -> known_noslash known ->
+  (startswith a "/" = true \/
+   (stage_prefixed (first_seg_of "/" a) = false /\
+    ((in_strs (first_seg_of "/" a) (all_folders ad tlf) = true /\ known_in known ctx (first_seg_of "/" a) = false)
+     \/ var_search (first_seg_of "/" a) = true))) ->
+  expand_one r ctx known ad tlf = Some r.
+Proof.
+  intros S K H. unfold expand_one.
+  assert (P : exists si prod file, parse_full r None [] [] = Some (si, prod, file, meth) /\
+          (is_var_reference prod = true \/ hasc "/" prod = true \/
+           (si = None /\ in_strs prod (all_folders ad tlf) = true /\ known_in known ctx prod = false))).
+  { unfold parse_full, parse_data. rewrite S.
+    destruct (startswith a "/") eqn:A.
+    - destruct (os_split a) as [h t] eqn:O.
+      pose proof (os_split_abs a A) as Hh. rewrite O in Hh. cbn [fst] in Hh.
+      unfold parse_producer. rewrite Hh. eexists; eexists; eexists. split; [reflexivity|].
+      right; left. apply startswith_hasc. exact Hh.
+    - destruct H as [H|[Hsp Hcls]]; [discriminate|]. unfold first_seg_of in *.
+      destruct (split1 "/" a) as [[t0 rest]|] eqn:T.
+      + pose proof (split1_hasc _ _ _ _ T) as Hsl. pose proof (split1_some _ _ _ _ T) as [Ea Ht0].
+        destruct (in_strs t0 Special) eqn:Sp.
+        * assert (PP : parse_producer a None = (None, a, false)).
+          { rewrite Ea at 1. rewrite (parse_producer_special _ _ _ Sp). rewrite <- Ea. reflexivity. }
+          rewrite PP. eexists; eexists; eexists. split; [reflexivity|]. right; left. exact Hsl.
+        * rewrite (parse_producer_rel _ _ (hasc_not_prefix _ _ Ht0) Hsp).
+          exists None, t0, (Some rest). split; [destruct (not_component t0 false _); reflexivity|].
+          destruct Hcls as [[C1 C2]|C]; [right; right; auto|left; unfold is_var_reference; rewrite C; reflexivity].
+      + rewrite (parse_producer_rel _ _ A Hsp).
+        exists None, a, None. split; [destruct (not_component a false _); reflexivity|].
+        destruct Hcls as [[C1 C2]|C]; [right; right; auto|left; unfold is_var_reference; rewrite C; reflexivity]. }
+  destruct P as (si & prod & file & E & C). exact (expand_direct_core _ _ _ _ _ _ _ _ E K C).
+Qed.
+
+(* ================================================================ Manifest.top_level_folders (repaired) *)
+Lemma split1_none_inv c s : split1 c s = None -> hasc c s = false.
+Proof.
+  induction s as [|x s IH]; cbn; [reflexivity|]. destruct (Ascii.eqb x c); [discriminate|].
+  destruct (split1 c s) as [[l r]|]; [discriminate|]. intros _. cbn. apply IH. reflexivity.
+Qed.
+
+Lemma first_seg_spec k :
+  hasc "/" (first_seg_of "/" k) = false /\
+  (k = first_seg_of "/" k \/ exists rest, k = first_seg_of "/" k ++ String "/" rest).
+Proof.
+  unfold first_seg_of. destruct (split1 "/" k) as [[a b]|] eqn:S.
+  - apply split1_some in S as [-> H]. split; [exact H|right; exists b; reflexivity].
+  - split; [apply split1_none_inv; exact S|left; reflexivity].
+Qed.
+
+Theorem top_level_first_segments keys f :
+  In f (top_level_folders keys) ->
+  hasc "/" f = false /\ exists k, In k keys /\ (k = f \/ exists rest, k = f ++ String "/" rest).
+Proof.
+  unfold top_level_folders. intros H. apply in_map_iff in H as (k & <- & Hk).
+  destruct (first_seg_spec k) as [A B]. split; [exact A|]. exists k. split; [exact Hk|]. exact B.
+Qed.
